@@ -41,6 +41,15 @@ MonPost ==
         req == Ev.req
     IN
     /\ Check("C19", "DocumentedStatus", Ev.status \in DocumentedStatus)
+    \* the same properties of the witness seen through the endpoint (the ids of the properties they belong to):
+    \* C03 whatever is answered as a refusal has changed nothing; C08 the honest next step of the log is accepted, whatever was sent before;
+    \* C09 the answer is the status of the first matching rule
+    /\ Check("C03", "RefusedThroughTheEndpointChangesNothing", Ev.status # 200 => Ev.unchanged)
+    \* (a 429 excuses the endpoint only where the configured rate can explain it: the runs of this part are configured with 100000 requests/s)
+    /\ (Ev.kind = "ok" /\ (~IsLimited \/ Ev.limit >= 1000) =>
+          /\ Check("C08", "HonestStepAcceptedThroughTheEndpoint",
+                   (req = [HonestReq(st, req.n) EXCEPT !.ext = req.ext] /\ OnMain(st) /\ (st = None \/ req.n >= st.n) /\ ~F1(st, req.n)) => Ev.status = 200)
+          /\ Check("C09", "FirstMatchingRuleThroughTheEndpoint", InC09Domain(TRUE, st, req) => Ev.status = StatusOf(SpecVerdict(TRUE, st, req))))
     /\ Check("C10", "RateLimit", Ev.kind = "fuzz" \/ RateOK)
     /\ Check("C10", "LimitedNotProcessed", IsLimited => Ev.unchanged /\ Ev.body.cls = "empty")
     /\ (~IsLimited =>
